@@ -54,14 +54,17 @@ Proof. exact ex_add_dropped_rejected. Qed.
 Example C18_dropped_net_not_SchemOK : ~ SchemOK ex_add_c ex_add_dropped_l.
 Proof. exact ex_add_dropped_not_SchemOK. Qed.
 
-(* finding C18-F1 (refutation of the property on the unchanged library): the layout py4hw builds for a block that
-   contains  Reg(d, q, enable=q)  loses the net q -> r.e; it is rejected and violates the declarative statement *)
-Theorem C18_selfloop_refuted : schem_ok ex_selfloop_c ex_selfloop_l = false /\ ~ SchemOK ex_selfloop_c ex_selfloop_l.
+(* C18-F1 (repaired in /repo by ead5329, switched by fixes/C18_switch.py): the layout py4hw USED TO build for a block that contains
+   Reg(d, q, enable=q)  lost the net q -> r.e; kept as a negative example: it is rejected and violates the declarative statement *)
+Example C18_selfloop_old_layout_rejected : schem_ok ex_selfloop_c ex_selfloop_l = false /\ ~ SchemOK ex_selfloop_c ex_selfloop_l.
 Proof. exact (conj ex_selfloop_rejected ex_selfloop_not_SchemOK). Qed.
+(* with fixes/C18-F1.diff applied the same block is drawn with the feedback stop marker in the column before the register and
+   the net fZ -> r.e present: accepted, hence SchemOK *)
+Example C18_selfloop_repaired_SchemOK : SchemOK ex_selfloop_c ex_selfloop_repaired_l.
+Proof. exact ex_selfloop_repaired_SchemOK. Qed.
 
 Print Assumptions C18_circ_check_sound.
 Print Assumptions C18_check_sound.
 Print Assumptions C18_check_complete.
 Print Assumptions C18_check_decides.
 Print Assumptions C18_reach_sound.
-Print Assumptions C18_selfloop_refuted.
